@@ -17,30 +17,46 @@ TABLE_CONSTRUCTS = ["direction_map", "cell_agents_code", "cell_is_empty_code", "
                     "move_relative_code", "move2d_code", "cellagent_remove_code", "fixedagent_remove_code", "empties_code",
                     "try_random_accepts_code", "random_empty_skeleton"]
 ENUM_ALWAYS = False
-RULE = ("history = one cell space (OrthogonalMooreGrid / OrthogonalVonNeumannGrid in 1-4 dimensions, HexGrid, Network, "
-        "VoronoiGrid; torus flag; capacity None / 1 / 2 / 3, per cell on Voronoi) + up to 8 agents (CellAgent, FixedAgent, "
-        "Grid2DMovingAgent) + up to 30 operations: cell assignment (incl. None, the same cell, a full cell), move_to, "
-        "move_relative (existing and missing directions), Grid2DMovingAgent.move(name, k) (k from -1 to beyond the border, "
-        "names in mixed case and invalid), remove (also repeated), model.remove_all_agents, agents created mid-history, CellCollection views and random choices on all_cells / empties, CellCollection.select(filter, at_most), Cell.connect / disconnect followed by moves along the edited keys, direct cell.add_agent / remove_agent calls (model and correspondence only; the oracle stops judging after the first), capacity 0 and fractional capacities (rare), select_random_empty_cell under both strategies and "
-        "placement into the cell it returned, and 'probe' points where the driver issues every kind of call that must be rejected in "
-        "the state reached (C18 fault enumeration: full cells, FixedAgent second cell, missing directions, paths leaving the grid); the whole state view is observed after every operation. "
-        "non-trivial = at least 3 operations of which one was rejected or one cell held >= 2 agents or a removal happened; "
-        "distinct = by SHA1 of the history")
+RULE = ("history = one cell space (OrthogonalMooreGrid / OrthogonalVonNeumannGrid in 1-4 dimensions incl. 1xN and 1x1, HexGrid, Network "
+        "(fixed and random graphs, isolated nodes, self loops), VoronoiGrid; torus flag; capacity None / 1 / 2 / 3 and - rarely, as documented "
+        "boundary - 0, floats 0.5 1.1 1.5 2.3 2.5, True, numpy.float64(2.0), 10**20; per cell on Voronoi; every third space built with a Cell "
+        "subclass whose instances are falsy and of len 0; every fourth preceded by another grid with an agent in the same process) "
+        "+ up to 8 initial agents (CellAgent, FixedAgent, Grid2DMovingAgent; every other one a falsy / len-0 / sub-sub-class variant) "
+        "+ up to ~35 operations: cell assignment (incl. None, the same cell, a full cell), move_to, move_relative (existing and missing "
+        "directions), Grid2DMovingAgent.move(name, k) (k in -1..6 and 50, names in mixed case and invalid; positional / keyword / default "
+        "argument spellings alternate), remove (also repeated), model.remove_all_agents, agents created mid-history, "
+        "select_random_empty_cell under both strategies and placement into the returned cell, CellCollection views / select_random_cell / "
+        "select_random_agent / select(filter, at_most) on all_cells and empties (at_most: inf, ints incl. negative, True, 10**20, floats <= 1.0 "
+        "dyadic and 0.3 / 0.7, floats > 1.0, numpy.float64), Cell.connect / disconnect / connection queries followed by moves along the edited "
+        "keys, 'probe' points where the driver issues every kind of call that must be rejected in the state reached (C18 fault enumeration), "
+        "and - in 12 % of the histories, in their second half - direct cell.add_agent / remove_agent calls (model and correspondence only; the "
+        "oracle stops judging a history at its first direct call). The whole state view is observed after every operation; at the end the "
+        "constructor arguments (graph, points, dimensions) must be unchanged. "
+        "non-trivial = at least 3 operations of which one was rejected or a removal happened; distinct = by SHA1 of the history")
 TRUSTED_BASE = [
     "Coq 8.16.1 kernel (coqc); vm_compute used to evaluate the model in the correspondence and in the non-vacuity examples",
-    "no axioms: Print Assumptions reports 'Closed under the global context' for every C06 / C18_cellspace theorem",
-    "harness/tables/direction_map.py (T1) extracting Grid2DMovingAgent.DIRECTION_MAP",
-    "harness/props/C06.py driver+observer and the Gallina literal printer (T2, differential testing, not a proof)",
-    "Model/CellSpace.v is a hand transcription of cell_agent.py / cell.py / discrete_space.py / grid.py (as repaired by fixes/C06-*); "
-    "Python list = Coq list, cell.connections = a finite table read from the real space",
+    "no axioms: Print Assumptions reports 'Closed under the global context' for all 53 C06_* and 12 C18_cellspace_* theorems of Properties/C06.v",
+    "harness/tables/direction_map.py (DIRECTION_MAP) and harness/tables/cellspace_code.py (class Eff, a statement translator on top of "
+    "harness/pyexpr.py) - T1: 14 methods regenerated as Gallina on every run + 2 alpha-normalised statement skeletons",
+    "harness/props/C06.py driver+observer, the shadow-dictionary oracle and the Gallina literal printer (T2, differential testing, not a proof)",
+    "the hand-written glue of Proofs/CellSpaceBridge.v:gen_step (dispatch on the agent class, applicability guards, legality check of recorded "
+    "random outcomes, Agent.remove = deregistration, the loop of model.remove_all_agents) and Model/CellSpaceX.v (direct cell calls, agent "
+    "creation, collection queries, select, connect / disconnect overlay); Python list = Coq list, cell.connections = a finite table read "
+    "from the real space for the direction keys the history uses",
     "Uint63 primitive hash only in scratch Cases files, never under a theorem",
 ]
 ASSUMPTIONS = [
-    "capacities are None or ints >= 1 (capacity 0 is treated as 'no limit' by add_agent but as 'full when empty' by is_full; out of the quantifier)",
-    "agents are created up front and only placed through the public API (cell attribute, move_to, move_relative, move, remove, "
-    "select_random_empty_cell); cell.add_agent / remove_agent are never called directly by user code",
-    "direction names are ASCII; Grid.select_random_empty_cell with _try_random on a space without an empty cell loops for ever and is never run (known non-finding)",
-    "order inside cell.agents is compared model-vs-implementation (list semantics) but not constrained by the oracle",
+    "one space per history; agents are moved only between cells of that space (cells shared between spaces are not modelled)",
+    "the statement's quantifier is capacities None or ints >= 1 and placements through agent.cell / move_to / move_relative / move / remove: "
+    "capacity 0, float / bool / numpy capacities and direct cell.add_agent / remove_agent calls are in the model and the correspondence with "
+    "theorems describing what the code does (C06_capacity_zero_boundary, C06_float_capacity_boundary, C06_mirror_partial_direct_calls, "
+    "C06_mirror_refuted_by_direct_calls) but are not judged by the oracle beyond that; negative capacities are excluded",
+    "Grid.select_random_empty_cell with _try_random on a space without an empty cell loops for ever and is never run (known non-finding, E_LOOP)",
+    "direction names are lower-cased as ASCII in the model (non-ASCII names are not generated); the KeyError of DIRECTION_MAP[direction] is "
+    "unreachable behind the translated `not in` test and not modelled",
+    "select fractions 0.3 / 0.7 are generated only because int(len * f) in binary64 equals the exact floor for every len <= 64 (asserted at import)",
+    "order inside cell.agents is compared model-vs-implementation (list semantics) but not constrained by the oracle; cell.neighborhood caches "
+    "after connect / disconnect belong to C07",
 ]
 
 E_FULL, E_FIXED, E_NODIR, E_BADDIR, E_ATTR, E_NOTIN, E_NOEMPTY, E_LOOP = 1, 2, 3, 4, 5, 6, 7, 8
@@ -92,7 +108,8 @@ def _rand_space(rng):
     t = rng.choice(["moore", "moore", "vonneumann", "vonneumann", "hex", "network", "network", "voronoi"])
     cap = rng.choice([None, 1, 1, 1, 2, 2, 3])
     if rng.random() < 0.06:
-        cap = rng.choice([0, 0.5, 1.5, 2.5])      # documented boundary: capacity 0 and float capacities
+        # documented boundary: capacity 0, float capacities (dyadic and not), bool, numpy float, an int beyond 2^53
+        cap = rng.choice([0, 0.5, 1.5, 2.5, 2.3, 1.1, "true", "npf2", "big"])
     if t in ("moore", "vonneumann"):
         dims = list(rng.choice(GRID_DIMS))
         return {"type": t, "dims": dims, "torus": rng.random() < 0.5, "capacity": cap}
@@ -112,7 +129,7 @@ def _rand_space(rng):
     pts = rng.choice(VORONOI_POINTS)
     caps = [rng.choice([None, 1, 1, 2, 3]) for _ in pts] if rng.random() < 0.7 else [cap]
     if rng.random() < 0.1:
-        caps = [rng.choice([None, 1, 2, 0, 1.5, 2.5]) for _ in pts]
+        caps = [rng.choice([None, 1, 2, 0, 1.5, 2.5, 2.3, "true", "npf2", "big"]) for _ in pts]
     return {"type": t, "points": pts, "capacity": cap, "caps": caps}
 
 
@@ -229,7 +246,7 @@ def _gen_ops(rng, sp, kinds, n_ops):
             a = rng.choice(g2)
             if a not in where and rng.random() < 0.8:
                 continue
-            ops.append(["move2d", a, _rand_name(rng), rng.choice([1, 1, 1, 2, 2, 3, 4, 0, -1, 6])])
+            ops.append(["move2d", a, _rand_name(rng), rng.choice([1, 1, 1, 2, 2, 3, 4, 0, -1, 6, 50])])
         elif r < 0.83:
             if rng.random() < 0.08:
                 ops.append(["remove_all"])
@@ -257,7 +274,8 @@ def _gen_ops(rng, sp, kinds, n_ops):
             if q < 0.34:
                 pred = rng.choice([["any"], ["empty"], ["nonempty"], ["atleast", rng.randint(0, 3)], ["idxmod", rng.randint(1, 3), rng.randint(0, 2)],
                                    ["has", rng.randint(1, len(kinds))]])
-                am = rng.choice([None, None, 0, 1, 2, 3, 100, -1, ["frac", 1, 2], ["frac", 1, 4], ["frac", 3, 4], ["frac", 0, 1], ["frac", 1, 1]])
+                am = rng.choice([None, None, 0, 1, 2, 3, 100, -1, ["frac", 1, 2], ["frac", 1, 4], ["frac", 3, 4], ["frac", 0, 1], ["frac", 1, 1],
+                                 ["frac", 3, 10], ["frac", 7, 10], ["float", 2.5], ["float", 1.5], True, 10 ** 20, ["npf", 1, 2]])
                 ops.append(["coll_select", rng.choice(["all", "all", "empties"]), pred, am])
                 continue
             if q < 0.40:
@@ -370,7 +388,7 @@ def _corner_cases():
 
 def gen_cases(rng, tier):
     cases = _corner_cases()
-    n = 1200 if tier == "quick" else 20000
+    n = 1000 if tier == "quick" else 20000
     for _ in range(n):
         cases.append(_rand_case(rng))
     return cases
@@ -420,7 +438,21 @@ def enumerate_cases(tier, broken=False):
 
 
 # ------------------------------------------------------------------ implementation side
-def _build_space(sp, rnd):
+_CAP_TAGS = {"true": True, "big": 10 ** 20}
+
+
+def _cap(v):
+    """capacity value of a case: plain JSON values, or a tag for bool / huge / numpy values"""
+    if isinstance(v, str):
+        if v == "npf2":
+            import numpy as np
+
+            return np.float64(2.0)
+        return _CAP_TAGS[v]
+    return v
+
+
+def _build_space(sp, rnd, cell_klass=None):
     import warnings
 
     from mesa.discrete_space import HexGrid, Network, OrthogonalMooreGrid, OrthogonalVonNeumannGrid, VoronoiGrid
@@ -430,18 +462,42 @@ def _build_space(sp, rnd):
         warnings.simplefilter("ignore")
         if t in ("moore", "vonneumann", "hex"):
             cls = {"moore": OrthogonalMooreGrid, "vonneumann": OrthogonalVonNeumannGrid, "hex": HexGrid}[t]
-            return cls(tuple(sp["dims"]), torus=bool(sp["torus"]), capacity=sp["capacity"], random=rnd)
+            kw = {"cell_klass": cell_klass} if cell_klass is not None else {}
+            return cls(tuple(sp["dims"]), torus=bool(sp["torus"]), capacity=_cap(sp["capacity"]), random=rnd, **kw)
         if t == "network":
             import networkx as nx
 
             g = nx.Graph()
             g.add_nodes_from(sp["graph"]["nodes"])
             g.add_edges_from([tuple(e) for e in sp["graph"]["edges"]])
-            return Network(g, capacity=sp["capacity"], random=rnd)
-        caps = sp.get("caps") or [sp["capacity"]]
+            kw = {"cell_klass": cell_klass} if cell_klass is not None else {}
+            return Network(g, capacity=_cap(sp["capacity"]), random=rnd, **kw)
+        caps = [_cap(v) for v in (sp.get("caps") or [sp["capacity"]])]
         counter = itertools.count()
-        return VoronoiGrid([list(p) for p in sp["points"]], capacity=sp["capacity"], random=rnd,
-                           capacity_function=lambda area: caps[next(counter) % len(caps)])
+        kw = {"cell_klass": cell_klass} if cell_klass is not None else {}
+        return VoronoiGrid([list(p) for p in sp["points"]], capacity=_cap(sp["capacity"]), random=rnd,
+                           capacity_function=lambda area: caps[next(counter) % len(caps)], **kw)
+
+
+def _at_most_value(am):
+    """the at_most argument of a coll_select op: None = inf, an int / bool, ["frac", n, d] = the float n/d (<= 1.0),
+    ["npf", n, d] = numpy.float64(n/d), ["float", f] = a float > 1.0"""
+    if am is None:
+        return float("inf")
+    if isinstance(am, list):
+        if am[0] == "float":
+            return float(am[1])
+        if am[0] == "npf":
+            import numpy as np
+
+            return np.float64(am[1] / am[2])
+        return am[1] / am[2]
+    return am
+
+
+# the model computes int(len * f) exactly (len * n / d); non-dyadic fractions are only generated where binary64 agrees
+for _n, _d in ((3, 10), (7, 10)):
+    assert all(int(_l * (_n / _d)) == _l * _n // _d for _l in range(0, 65)), (_n, _d)
 
 
 def _key_of(sp, d):
@@ -478,7 +534,7 @@ def _static(case, space=None):
     index = {id(c): i for i, c in enumerate(cells)}
     raw_caps = [c.capacity for c in cells]
     caps = [None if q is None else int(math.ceil(q)) for q in raw_caps]      # admission test n >= q  <=>  n >= ceil(q)
-    frac = [bool(q is not None and q != int(q)) for q in raw_caps]            # len == q is never true then
+    frac = [bool(q is not None and q != int(math.ceil(q))) for q in raw_caps]  # len == q is never true then
     rows = []
     for k in _dirs_used(case):
         key = _key_of(case["space"], k)
@@ -491,34 +547,28 @@ def _static(case, space=None):
 
 
 def _classify(e, kind="", fixed=False, bad_name=False):
-    """exception -> error kind.  By message keyword first; when a message has been reworded, by exception type and
-    call site (the kinds are a property of the site, the text is not compared)"""
-    msg = str(e).lower()
-    if type(e) is Exception and "full" in msg:
-        return E_FULL
-    if isinstance(e, ValueError) and "fixedcell" in msg:
-        return E_FIXED
-    if isinstance(e, ValueError) and "no cell in direction" in msg:
-        return E_NODIR
-    if isinstance(e, ValueError) and "invalid direction" in msg:
-        return E_BADDIR
-    if isinstance(e, AttributeError) and "nonetype" in msg:
-        return E_ATTR
-    if isinstance(e, ValueError) and "not in list" in msg:
-        return E_NOTIN
+    """exception -> error kind, by exception TYPE and POSITION (the function that raised: innermost frame of the
+    traceback), never by the message text"""
+    where = ""
+    tb = e.__traceback__
+    while tb is not None:
+        where = tb.tb_frame.f_code.co_name
+        tb = tb.tb_next
+    if type(e) is Exception:
+        return E_FULL if where == "add_agent" else 99
     if isinstance(e, IndexError):
         return E_NOEMPTY
-    if type(e) is Exception:
-        return E_FULL
+    if isinstance(e, AttributeError):
+        return E_ATTR
     if type(e) is ValueError:
-        if kind in ("set", "place_rand") and fixed:
-            return E_FIXED
-        if kind == "move_rel":
+        if where == "remove_agent":
+            return E_NOTIN                      # list.remove(x): x not in list
+        if where == "cell":
+            return E_FIXED                      # the FixedCell setter
+        if where == "move_relative":
             return E_NODIR
-        if kind == "move2d":
+        if where == "move":
             return E_BADDIR if bad_name else E_NODIR
-        if kind in ("remove", "remove_all"):
-            return E_NOTIN
     return 99
 
 
@@ -545,10 +595,43 @@ def run_impl(case):
                 raise RuntimeError("select_random_empty_cell did not terminate (5000 draws)")
             return super().choice(seq)
 
+    from mesa.discrete_space import Cell, OrthogonalMooreGrid
+
+    # objects whose truth value is False / whose len() is 0, and subclasses of subclasses (the code must test `is None`)
+    class _FalsyCellAgent(CellAgent):
+        def __bool__(self):
+            return False
+
+    class _ZeroLenGrid2D(Grid2DMovingAgent):
+        def __len__(self):
+            return 0
+
+    class _SubFixed(FixedAgent):
+        pass
+
+    class _SubSubFixed(_SubFixed):
+        def __bool__(self):
+            return False
+
+    class _FalsyCell(Cell):
+        def __bool__(self):
+            return False
+
+        def __len__(self):
+            return 0
+
     sp = case["space"]
-    model = mesa.Model(seed=case.get("seed", 0))
-    rnd = _BoundedRandom(case.get("seed", 0))
-    space = _build_space(sp, rnd)
+    seed = case.get("seed", 0)
+    model = mesa.Model(seed=seed)
+    rnd = _BoundedRandom(seed)
+    if seed % 4 == 1:
+        # prior history in the same process: another grid (own GridCell class, own 'empty' layer) with an agent in it
+        with __import__("warnings").catch_warnings():
+            __import__("warnings").simplefilter("ignore")
+            decoy = OrthogonalMooreGrid((2, 3), capacity=1, random=_random.Random(1))
+        decoy_agent = CellAgent(mesa.Model(seed=1))
+        decoy_agent.cell = decoy._cells[(0, 0)]
+    space = _build_space(sp, rnd, _FalsyCell if seed % 3 == 1 else None)
     is_grid = sp["type"] in ("moore", "vonneumann", "hex")
     cells = list(space._cells.values())
     ncells = len(cells)
@@ -556,8 +639,20 @@ def run_impl(case):
     caps = [c.capacity for c in cells]
     kinds = list(case["agents"])
     n = len(kinds)
-    klass = {"cell": CellAgent, "fixed": FixedAgent, "grid2d": Grid2DMovingAgent}
-    agents = [klass[k](model) for k in kinds]          # strong references for the whole history
+    variants = {"cell": [CellAgent, _FalsyCellAgent], "fixed": [FixedAgent, _SubSubFixed], "grid2d": [Grid2DMovingAgent, _ZeroLenGrid2D]}
+
+    class _Klass(dict):
+        """kind -> class for the NEXT agent: the plain class or, every other agent, its falsy / sub-sub-class variant"""
+        def __getitem__(self, k):
+            return variants[k][(seed + len(agents)) % 2]
+
+        def __contains__(self, k):
+            return k in variants
+
+    agents = []
+    klass = _Klass()
+    for k in kinds:
+        agents.append(klass[k](model))                  # strong references for the whole history
     aid = {id(a): i + 1 for i, a in enumerate(agents)}
     static = _static(case, space)
     layer = space._mesa_property_layers["empty"] if is_grid else None
@@ -826,9 +921,9 @@ def run_impl(case):
                 ops_out.append(["noop"])
                 return
             coll = space.all_cells if w == "all" else space.empties
-            amv = float("inf") if am is None else (am[1] / am[2] if isinstance(am, list) else am)
+            amv = _at_most_value(am)
             try:
-                res = coll.select(fns[pk], at_most=amv)
+                res = coll.select(fns[pk], amv) if i % 2 else coll.select(filter_func=fns[pk], at_most=amv)
                 cl = [cidx.get(id(c), -9) for c in res.cells]
                 al = ids_of(res.agents)
             except Exception as e:  # noqa: BLE001
@@ -844,8 +939,11 @@ def run_impl(case):
                   "atleast": lambda j: len(occupants(j)) >= pred[1], "idxmod": lambda j: j % pred[1] == pred[2],
                   "has": lambda j: pred[1] in occupants(j)}[pk]
             match = [j for j in members if sh(j)]
-            lim = None if am is None else (int(len(members) * (am[1] / am[2])) if isinstance(am, list) else am)
-            exp = match if lim is None else match[:max(lim, 0)]
+            lim = amv
+            if isinstance(lim, float) and lim <= 1.0:
+                lim = int(len(members) * lim)
+            # the generator stops as soon as count >= limit
+            exp = match if lim == float("inf") else match[:max(int(math.ceil(lim)), 0)]
             if cl != exp:
                 fail(f"C06/collection-{w}/select", i, f"{op}: selected cells {cl}; the first {lim} of {members} passing the filter are {exp}")
             elif sorted(al) != sorted(b for j in exp for b in occupants(j)):
@@ -995,11 +1093,19 @@ def run_impl(case):
             if kind == "set":
                 ag.cell = cells[op[2]] if op[2] is not None else None
             elif kind == "move_to":
-                ag.move_to(cells[op[2]])
+                ag.move_to(cells[op[2]]) if i % 2 else ag.move_to(cell=cells[op[2]])
             elif kind == "move_rel":
-                ag.move_relative(_key_of(sp, [int(x) for x in op[2]]))
+                dkey = _key_of(sp, [int(x) for x in op[2]])
+                ag.move_relative(dkey) if i % 2 else ag.move_relative(direction=dkey)
             elif kind == "move2d":
-                ag.move(str(op[2]), int(op[3]))
+                if i % 3 == 0:
+                    ag.move(str(op[2]), int(op[3]))
+                elif i % 3 == 1:
+                    ag.move(direction=str(op[2]), distance=int(op[3]))
+                elif int(op[3]) == 1:
+                    ag.move(str(op[2]))                 # the default distance
+                else:
+                    ag.move(str(op[2]), distance=int(op[3]))
             elif kind == "remove":
                 ag.remove()
             elif kind == "remove_all":
@@ -1089,6 +1195,20 @@ def run_impl(case):
             if len([f for f in failures[before:] if f["key"].startswith("C06/")]):
                 poisoned[0] = True
         prev = cur
+    # caller-owned constructor arguments must come back unchanged
+    try:
+        if sp["type"] == "network":
+            same = (list(space.G.nodes) == list(sp["graph"]["nodes"])
+                    and sorted(tuple(sorted(e)) for e in space.G.edges) == sorted(tuple(sorted(e)) for e in sp["graph"]["edges"]))
+        elif sp["type"] == "voronoi":
+            same = [list(p) for p in space.centroids_coordinates] == [list(p) for p in sp["points"]]
+        else:
+            same = tuple(space.dimensions) == tuple(sp["dims"])
+        if not same:
+            failures.append({"key": "C06/caller-arguments/mutated", "op": len(obs) - 1,
+                             "what": "the graph / point list / dimensions handed to the space were changed by the history"})
+    except Exception as e:  # noqa: BLE001
+        failures.append({"key": "C06/caller-arguments/mutated", "op": len(obs) - 1, "what": f"cannot re-read the constructor arguments: {e}"})
     return {"obs": obs, "failures": failures, "ops_for_model": {"ops": ops_out, "static": static}}
 
 
@@ -1159,7 +1279,16 @@ def coq_case(case):
                 f"(PAtLeast {L.z(pr[1])})" if pr[0] == "atleast" else f"(PIdxMod {L.z(pr[1])} {L.z(pr[2])})" if pr[0] == "idxmod"
                 else f"(PHas {L.z(pr[1])})")
             am = op[3]
-            at = "AInf" if am is None else (f"(AFrac {L.z(am[1])} {L.z(am[2])})" if isinstance(am, list) else f"(AInt {L.z(am)})")
+            if am is None:
+                at = "AInf"
+            elif isinstance(am, list) and am[0] == "float":
+                import math as _m
+
+                at = f"(AInt {L.z(int(_m.ceil(am[1])))})"      # count >= 2.5  <=>  count >= 3
+            elif isinstance(am, list):
+                at = f"(AFrac {L.z(am[1])} {L.z(am[2])})"
+            else:
+                at = f"(AInt {L.z(int(am))})"
             ops.append(f"CollSelect {coll[op[1]]} {pt} {at}")
         elif k == "connect":
             ops.append(f"Connect {L.z(op[1])} {L.z(op[2])} {L.zlist(op[3])}")
@@ -1196,19 +1325,34 @@ def op_kinds(case):
 
 def nontrivial(case):
     obs = case.get("_obs", [])
-    return len(case["ops"]) >= 3 and any(o and o[0] == -1 for o in obs) or any(op[0] in ("remove", "remove_all") for op in case["ops"])
+    return (len(case["ops"]) >= 3 and any(o and o[0] == -1 for o in obs)) or any(op[0] in ("remove", "remove_all") for op in case["ops"])
 
 
-LEVEL_TEXT = ("Machine-checked Coq theorems over a Gallina transcription of the cell setter, FixedCell setter, move_to, "
-              "move_relative, Grid2DMovingAgent.move, CellAgent/FixedAgent.remove, Cell.add_agent/remove_agent and "
-              "select_random_empty_cell: for EVERY topology (connection function), capacity assignment and history of "
-              "operations the mirror invariant, the capacity bound and the agreement of is_empty / is_full / empties / "
-              "agents / the 'empty' layer hold (induction over the history), a removed agent is in no cell, a cell returned "
-              "as empty has no agents and accepts a placement, and every rejected call leaves the observation unchanged "
-              "(C18 cell-space sites).  The model is tied to the code by the DIRECTION_MAP table re-extracted on every run (T1) "
-              "and by differential evaluation on random and exhaustive small histories over all five space types (T2); "
-              "an independent shadow-dictionary oracle states the property on the implementation and supplies failing inputs.")
-LEVEL_NOTE = ("Theorems are about the model of the repaired code (fixes/C06-1..4); connections are data read from the real space, "
-              "so C07's geometry is not re-proved here.  Trusted: Coq kernel, the table extractor, driver/observer, CPython list semantics as modelled. No axioms.")
-TECHNIQUE = "Coq proof (invariant by induction over histories, closed under global context) + source-regenerated table + vm_compute correspondence"
+LEVEL_TEXT = ("Machine-checked Coq theorems (53 C06_* + 12 C18_cellspace_*, all closed under the global context, 13 non-vacuity examples) over an "
+              "executable Gallina model of the cell spaces: Model/CellSpace.v (cell setter, FixedCell setter, move_to, move_relative, "
+              "Grid2DMovingAgent.move, CellAgent/FixedAgent.remove, model.remove_all_agents, Cell.add_agent/remove_agent, is_empty, is_full, "
+              "empties, space.agents, select_random_empty_cell under both strategies) and its extension Model/CellSpaceX.v (direct cell calls, "
+              "agents created mid-history, all_cells / empties as CellCollection with select_random_cell / select_random_agent / "
+              "select(filter, at_most), Cell.connect / disconnect with live connections, fractional capacities). For EVERY topology (connection "
+              "function), capacity map and history: the mirror invariant agent.cell <-> cell.agents (listed exactly once, in no other cell), the "
+              "capacity bound, agreement of flag/'empty' layer, is_empty, is_full, empties, space.agents, exactness of the random empty cell and of "
+              "the collection views, removal detaches, every rejection is justified, every rejected call leaves the whole observation unchanged and "
+              "is invisible to the rest of the history (C18 cell-space sites), a refinement to an abstract counting specification (the oracle's "
+              "shadow dictionary), what survives direct cell.add_agent / remove_agent calls (and a refutation of the rest), and the boundary "
+              "behaviour of capacity 0 / float capacities. Code-level T1: 14 methods of cell.py, cell_agent.py, discrete_space.py, grid.py are "
+              "re-translated from the working tree into Gallina on every run and proved equal to the model functions by bridge lemmas "
+              "(Proofs/CellSpaceBridge.v, step = gen_step), so the headline theorems are restated about the translated source "
+              "(C06_mirror_of_source, C06_capacity_of_source, C06_views_agree_of_source, C18_cellspace_atomic_of_source); the DIRECTION_MAP table "
+              "and two alpha-normalised statement skeletons cover what cannot be translated. T2: differential evaluation of model vs "
+              "implementation on random, corner and exhaustively enumerated small histories over all five space types, with an independent "
+              "shadow-dictionary oracle that supplies failing inputs.")
+LEVEL_NOTE = ("The four defects found in this area (cell setter and FixedCell setter not atomic on a full cell, Grid2DMovingAgent.move stopping "
+              "half-way, FixedAgent.remove without a cell / remove_all_agents stopping half-way) are repaired by fix: commits in the repository; "
+              "the model follows the repaired code and no known finding remains. Theorems are about the model; the bridge lemmas tie 14 methods to "
+              "the source text, the rest (class dispatch, Agent.remove, random draws, CellCollection construction, connect/disconnect) is hand "
+              "transcription validated by the correspondence only. Connections are data read from the real space (C07 proves what they are). "
+              "Oracle-only: the caller-owned-arguments check, falsy / subclass agent and cell variants, keyword vs positional spellings (the model "
+              "does not distinguish them). Trusted: Coq kernel, the translators, driver/observer, CPython list semantics as modelled. No axioms.")
+TECHNIQUE = ("Coq proof (invariants by induction over histories, refinement, bridge lemmas to code regenerated from the source) + "
+             "source-regenerated tables and alpha-normalised skeletons + vm_compute correspondence + shadow-dictionary oracle")
 DESIGN_REF = "DESIGN.md section 4, C06 (and the cell-space sites of C18)"
